@@ -514,8 +514,12 @@ fn _factor_inner<T: FloatT>(
     next_colspace.copy_from_slice(&Lp[0..Lp.len() - 1]);
 
     if !logical_factor {
-        // First element of the diagonal D.
-        D[0] = Ax[0];
+        // First element of the diagonal D.   The matrix is upper
+        // triangular, so the first column holds at most the (0,0)
+        // entry.  It can be structurally absent after permutation,
+        // in which case the pivot is zero (not the first stored
+        // entry of a later column).
+        D[0] = if Ap[1] > Ap[0] { Ax[Ap[0]] } else { T::zero() };
         if regularize_enable {
             let sign = T::from_i8(Dsigns[0]).unwrap();
             if D[0] * sign < regularize_eps {
